@@ -24,7 +24,7 @@ def gen_cases(seed, tier):
         # still the same polynomial -- the derivative must not notice  (seeded change S3_C18: states clamped at 0 in the right-hand side)
         if all(rx["type"] == "massaction" for rx in spec["reactions"]) and rng.random() < 0.6:
             x[rng.choice(list(x))] = rng.choice([0.004, 0.011, 0.0005])
-        cases.append({"spec": spec, "x": x, "t": 0.0})
+        cases.append({"spec": spec, "x": x, "t": 0.0, "strided_state": rng.random() < 0.3})
     # states at which a rate equation is EXACTLY zero in floating point (fixed points / nullcline points with round numbers): the
     # derivatives there are as non-zero as anywhere else (seeded change S4_C18: a species whose rate equation evaluates to 0 at the
     # state was taken to have no dynamics and its row skipped)
@@ -58,13 +58,18 @@ def impl_case(case):
     x = np.zeros(len(s2i))
     for s, v in case["x"].items(): x[s2i[s]] = v
     out = {"J": {}, "Z": {}, "s2i": s2i, "p2i": p2i, "simif": G.simif_tokens(M), "x": [fhex(v) for v in x], "restored": True}
+    # the state as callers often hold it: a non-contiguous float64 view (a column of a trajectory matrix) instead of a list
+    # (seeded change S5_C18: the copies that made such a view contiguous were "optimised" away)
+    if case.get("strided_state"):
+        xb = np.full(2 * len(x), 97.0); xb[::2] = x; xarg = lambda: xb[::2]
+    else: xarg = lambda: list(x)
     before = dict(M.get_parameter_dictionary())
     for sch in SCHEMES:
-        out["J"][sch] = [float(v) for v in np.asarray(py_get_jacobian(M, list(x), method=sch)).flatten()]
+        out["J"][sch] = [float(v) for v in np.asarray(py_get_jacobian(M, xarg(), method=sch)).flatten()]
         if dict(M.get_parameter_dictionary()) != before: out["restored"] = False
         out["Z"][sch] = {}
         for pn in p2i:
-            out["Z"][sch][pn] = [float(v) for v in np.asarray(py_get_sensitivity_to_parameter(M, list(x), pn, method=sch)).flatten()]
+            out["Z"][sch][pn] = [float(v) for v in np.asarray(py_get_sensitivity_to_parameter(M, xarg(), pn, method=sch)).flatten()]
             if dict(M.get_parameter_dictionary()) != before: out["restored"] = False
     # second phase on the SAME model object: parameters changed in place, then queried again (nothing computed for the old
     # values may be reused, and the new values must survive the query) -- seeded change S2_C18
@@ -72,8 +77,8 @@ def impl_case(case):
     if newp:
         M.set_params(dict(newp)); sch = SCHEMES[0]
         out["newp"] = newp; out["simif2"] = G.simif_tokens(M)
-        out["J2"] = [float(v) for v in np.asarray(py_get_jacobian(M, list(x), method=sch)).flatten()]
-        out["Z2"] = {pn: [float(v) for v in np.asarray(py_get_sensitivity_to_parameter(M, list(x), pn, method=sch)).flatten()] for pn in p2i}
+        out["J2"] = [float(v) for v in np.asarray(py_get_jacobian(M, xarg(), method=sch)).flatten()]
+        out["Z2"] = {pn: [float(v) for v in np.asarray(py_get_sensitivity_to_parameter(M, xarg(), pn, method=sch)).flatten()] for pn in p2i}
         after = dict(M.get_parameter_dictionary()); out["kept2"] = all(after[k] == v for k, v in newp.items())
     return out
 
